@@ -283,8 +283,60 @@ func headOfDB(c *chain) (h [32]byte) {
 
 // ---- known-finding matchers (predicates over the shrunk failing case) -------------------------------------
 
+// ghost-state-ancestor (F-C11b): an invalid block is canonical, it claims a state root another block of the tree
+// also has (an empty block, or a block claiming its parent's root, so HasBlockAndState holds for it although it
+// was only ever stored by the side-chain path / never validated), and the tree holds a child of it (it became
+// canonical as an ANCESTOR in the reorg of a later import, which validates only the new tip).
 func matcherFor(k *kase, f failure) string {
+	if f.class != "invalid" {
+		return ""
+	}
+	var id int
+	if _, err := fmt.Sscanf(f.what, "invalid: node %d", &id); err != nil {
+		return ""
+	}
+	n := k.nodes[id]
+	if n == nil {
+		return ""
+	}
+	shared, hasChild := false, false
+	for _, o := range k.nodes {
+		if o.id != n.id && o.root == n.root {
+			shared = true
+		}
+		if o.parent == n.id {
+			hasChild = true
+		}
+	}
+	if shared && hasChild {
+		return "ghost-state-ancestor"
+	}
 	return ""
+}
+
+// directed probe of the open finding F-C11b (run on every check)
+var ghostProbe = []string{"MODE strict", "N 1 0 1 3 -", "N 2 1 1 3 -", "N 3 0 2 3 -", "M 4 3 badtx", "N 5 3 2 3 -", "M 6 5 reparent 4",
+	"N 7 5 2 3 -", "M 8 7 reparent 6", "I 1 2", "I 4", "I 6", "I 8"}
+
+func runProbe(c *vh.Ctx, m *modelIO) {
+	k, err := buildCase(ghostProbe)
+	if err != nil {
+		c.Res.Probes = append(c.Res.Probes, vh.Probe{ID: "F-C11b", Reproduced: false, What: "probe does not build: " + err.Error()})
+		return
+	}
+	fs, _ := runCase(k, m)
+	rep := false
+	what := "a block with a wrong transaction root, stored by the side-chain path, did not become canonical"
+	for _, f := range fs {
+		if f.kind == "oracle" && matcherFor(k, f) == "ghost-state-ancestor" {
+			rep = true
+			what = f.String()
+		} else {
+			// anything else on the probe (e.g. the model disagreeing) is a failure of its own
+			c.Res.Fail(f.kind, "", "probe F-C11b: "+f.String(), vh.WriteReplay(c.ReplayDir, "C11", "probe-ghost-"+f.class, c.Seed, []string{f.kind + ": " + f.String()}, ghostProbe))
+		}
+	}
+	c.Res.Probes = append(c.Res.Probes, vh.Probe{ID: "F-C11b", Reproduced: rep, What: what})
 }
 
 // ---- shrinking + replay files --------------------------------------------------------------------------------
@@ -457,6 +509,7 @@ func run(c *vh.Ctx) error {
 			res.Fail("corpus", matcherFor(k, f), "corpus witness fails again: "+fpath+": "+f.String(), fpath)
 		}
 	}
+	runProbe(c, m)
 	// exhaustive small family
 	for _, mode := range []string{"solo", "strict"} {
 		fam := smallFamily(mode)
@@ -468,7 +521,7 @@ func run(c *vh.Ctx) error {
 		}
 	}
 	// random structured cases
-	n := c.N(60, 900)
+	n := c.N(300, 2400)
 	if c.Search {
 		n *= 3
 	}
